@@ -146,6 +146,16 @@ func groupShapes() []shaped {
 	}
 }
 
+// PtrColl: fields that are pointers (to pointers) to collections of sub-objects, under both markers.
+type PtrColl struct {
+	PPS  **[]Leaf           `valid:"exist"`
+	PPM  **map[string]*Leaf `valid:"required"`
+	PPA  **[2]Leaf          `valid:"exist"`
+	PPPS ***[]*Leaf         `valid:"required"`
+	PM   *map[string]Leaf   `valid:"exist"`
+	PA   *[2]*Leaf          `valid:"required"`
+}
+
 func rv(x interface{}) reflect.Value { return reflect.ValueOf(x) }
 
 type shaped struct {
@@ -197,6 +207,40 @@ func holders() []shaped {
 	add("E", Holder{E: fmt.Errorf("e")})
 	add("U", Holder{U: 7, Cx: complex(1, 2), B: []byte("ab")})
 	add("priv", Holder{priv: bad})
+	// pointers (to pointers) to collections: outer pointer set and inner nil, chains set all the way, pointers to nil /
+	// empty collections
+	{
+		var nsl *[]Leaf
+		var nmp *map[string]*Leaf
+		var nar *[2]Leaf
+		var nnsp **[]*Leaf
+		var nilSlice []Leaf
+		var nilMap map[string]*Leaf
+		sl := []Leaf{*bad, {}}
+		psl := &sl
+		mp := map[string]*Leaf{"a": bad, "b": nil}
+		pmp := &mp
+		ar := [2]Leaf{*bad, {}}
+		par := &ar
+		spl := []*Leaf{nil, bad}
+		pspl := &spl
+		ppspl := &pspl
+		mv := map[string]Leaf{"a": *bad}
+		ap := [2]*Leaf{nil, bad}
+		pnils := &nilSlice
+		pnilm := &nilMap
+		addC := func(n string, h PtrColl) {
+			out = append(out, shaped{"PtrColl{" + n + "}", h}, shaped{"&PtrColl{" + n + "}", &h})
+		}
+		addC("zero", PtrColl{})
+		addC("outer set, inner nil", PtrColl{PPS: &nsl, PPM: &nmp, PPA: &nar, PPPS: &nnsp})
+		addC("PPS only: outer set, inner nil", PtrColl{PPS: &nsl})
+		addC("PPM only: outer set, inner nil", PtrColl{PPM: &nmp})
+		addC("PPA only: outer set, inner nil", PtrColl{PPA: &nar})
+		addC("PPPS: two levels set, third nil", PtrColl{PPPS: func() ***[]*Leaf { var p *[]*Leaf; pp := &p; return &pp }()})
+		addC("chains set", PtrColl{PPS: &psl, PPM: &pmp, PPA: &par, PPPS: &ppspl, PM: &mv, PA: &ap})
+		addC("pointers to nil collections", PtrColl{PPS: &pnils, PPM: &pnilm, PM: &map[string]Leaf{}, PA: &[2]*Leaf{}})
+	}
 	return out
 }
 
